@@ -215,6 +215,8 @@ def run_corpus(ctx):
 
 
 def run(ctx):
+    from .. import tables
+    tables.compare(ctx, what=("childs",))            # _child_types / component types: model vs live objects
     run_corpus(ctx)
     run_witnesses(ctx)
     cfg = G.Cfg(p_reject=0.35, p_unsafe=1.0, w_phase=0.05, p_mux=0.3)
